@@ -96,8 +96,11 @@ def gen_attrs_case(r, bad_names: bool) -> dict:
         return out
 
     kwargs = []
-    for _ in range(r.randint(0, 3)):
-        k = r.choice([x for x in NAMES_OK if ":" not in x])  # ':' in a keyword is aggregate / filter syntax (C02)
+    pool = [x for x in NAMES_OK if ":" not in x]  # ':' in a keyword is aggregate / filter syntax (C02)
+    if r.random() < 0.4:
+        pool = r.sample(pool, min(2, len(pool)))   # few names: several different keywords repeated
+    for _ in range(r.randint(0, 3) if r.random() < 0.6 else r.randint(3, 6)):
+        k = r.choice(pool)
         kwargs.append([k, gen_val(r, allow_nonstr=r.random() < 0.3)])
     return {"defaults": d(), "attrs": d(), "kwargs": kwargs,
             "form": r.choice(["positional", "keyword", "aggregate"])}
@@ -225,7 +228,9 @@ def run(tier: str) -> int:
     cases = [gen_attrs_case(core.rng(PROP, "attrs", i), bad_names=(i % 6 == 0)) for i in range(n)]
     fixed = [{"defaults": [["class", ["s", "a"]]], "attrs": [["class", ["s", "b<"]], ["x", ["t"]], ["y", ["none"]]], "kwargs": [["class", ["s", "c\""]], ["class", ["s", "d"]]], "form": "keyword"},
              {"defaults": [], "attrs": [["a b", ["s", "v"]], ["x=y", ["s", "w"]]], "kwargs": [], "form": "keyword"},
-             {"defaults": [], "attrs": [["n", ["n", 1]]], "kwargs": [["n", ["s", "2"]]], "form": "keyword"}]
+             {"defaults": [], "attrs": [["n", ["n", 1]]], "kwargs": [["n", ["s", "2"]]], "form": "keyword"},
+             # two different keywords, each repeated (IndexError before fix b027b3a)
+             {"defaults": [], "attrs": [], "kwargs": [["class", ["s", "a"]], ["class", ["s", "b"]], ["data-x", ["s", "1"]], ["data-x", ["s", "2"]]], "form": "keyword"}]
     cases = fixed + cases
     import keyword
 
